@@ -43,7 +43,7 @@ class Contract(object):
     def __init__(self, key, sig=None, returns=None, requires=(), ensures=(), raises=None, modifies=None,
                  loops=None, inline=False, interface=False, pure=False, self_type=None, closure=None,
                  properties=(), notes='', reads_globals=None, ctor_of=None, allocates=True, exact_self=False,
-                 raises_only=None, ghost_pre=None, verify=True, local_types=None):
+                 raises_only=None, ghost_pre=None, verify=True, local_types=None, dynamic_calls=None):
         self.key = key
         self.sig = dict(sig or {})              # param name -> type string
         self.returns = returns                  # type string or None
@@ -64,6 +64,7 @@ class Contract(object):
         self.raises_only = raises_only          # if set: list of exception class names that may escape (C15)
         self.ghost_pre = ghost_pre
         self.local_types = dict(local_types or {})   # local name -> type of the empty list / dict literal bound to it
+        self.dynamic_calls = dict(dynamic_calls or {})   # source text of a callee expression -> {'contract': key, 'new': Class}
         self.verify = verify                    # False: assumed at call sites only (listed as an assumption)
 
 
@@ -609,6 +610,13 @@ class Verifier(ExprMixin, CallMixin, BuiltinMixin, StmtMixin, Executor):
         locs = self.mod_locations(mods, pre, spec_env)
         next0 = self.H(pre, 'next')
         keys = set(st.heap) | set(pre.heap)
+        if not any(k.startswith('g.') for k in locs) and not tag.startswith('loop'):
+            # C19: no module-level variable is rebound on this path (the heap terms of the g.* keys at the exit against
+            # those at entry; the objects they refer to are covered by the per-array frames below)
+            gk = sorted(k for k in keys if k.startswith('g.'))
+            goal = z3.And(*[self.H(st, k) == self.H(pre, k) for k in gk]) if gk else z3.BoolVal(True)
+            self.vcs.append(VC('%s#frame.module_globals_untouched@path%d.%s' % (c.key, pi, tag), st.pc, goal, 'frame_global',
+                               {'clause': 'no module-level variable rebound (%d read on this path)' % len(gk), 'path': pi}))
         for key in sorted(keys):
             if key in ('next', 'cls'):
                 continue
@@ -681,7 +689,9 @@ class Verifier(ExprMixin, CallMixin, BuiltinMixin, StmtMixin, Executor):
         for ename, spec in c.raises.items():
             if spec.get('must'):
                 post = post.assume(z3.Not(self.spec_bool(spec['must'], pre, env)))
+        any_outcome = False
         if self.feasible(post):
+            any_outcome = True
             yield post, result
         # 3. exceptional outcomes
         for ename, spec in c.raises.items():
@@ -692,7 +702,12 @@ class Verifier(ExprMixin, CallMixin, BuiltinMixin, StmtMixin, Executor):
             for name, e in spec.get('ensures', ()):
                 ex_st = ex_st.assume(self.spec_bool(e, ex_st, env, pre))
             if self.feasible(ex_st):
+                any_outcome = True
                 yield ex_st, Raised(ExcVal(self.exc_class(ename), []))
+        if not any_outcome and self.feasible(pre):
+            # vacuity guard: a reachable call after which nothing is possible means the callee's contract contradicts
+            # itself (or the caller's knowledge) - the path would silently disappear together with its obligations
+            raise OutOfReach('the contract of %s leaves no outcome at a reachable call site (contradictory clauses)' % c.key)
 
     def fresh_param_heap(self, st, name, ty):
         old = getattr(self, 'tuples_by_value', True)
